@@ -240,3 +240,9 @@ HIP        - RFC 8005
 
 TSIG       - RFC 8945
 */
+/// verification hook: public types that live in private modules
+#[cfg(simple_dns_verif)]
+pub mod verif {
+    pub use super::ipseckey::Gateway;
+    pub use super::nsec::TypeBitMap;
+}
